@@ -31,6 +31,67 @@ theorem C04_main (w : World) (id : ConnIdent) (req : Req) (ts : TunnelState) (hw
   · obtain ⟨hc, ha, hm⟩ := passed_of_not_refused hr
     rw [entitled_of_passed hwf hc ha hm]; rfl
 
+/-- **C04, tunnel state changing during the request.**  `late` is whatever bridge or waiting route appears
+(for any mapping, on this or another node) while a request that found nothing at arrival is polling.  The
+acknowledgement obeys `holds` for the state at arrival, and the connection is attached to the tunnel that
+appeared — or receives bytes from it — only if it is entitled to THAT tunnel's mapping. -/
+theorem C04_main_dyn (w : World) (id : ConnIdent) (req : Req) (ts : TunnelState) (late : Late)
+    (hwf : identWF id = true) :
+    holdsDyn w id req ts late ((openTunnelDyn w id req ts late).obsDyn ts late) = true := by
+  unfold holdsDyn holds
+  by_cases hr : openTunnelDyn w id req ts late = refuse
+  · rw [hr]; simp [refuse, Outcome.obsDyn]
+  · obtain ⟨hc, ha, hm⟩ := passed_of_not_refused_dyn hr
+    have he := entitled_of_passed hwf hc ha hm
+    rw [he]
+    simp only [Bool.true_or, Bool.true_and]
+    -- where is it attached?
+    cases ts with
+    | bridge m sv => simp [attachedTs, he]
+    | remote m n => simp [attachedTs, he]
+    | none =>
+      cases late with
+      | none => simp [attachedTs, he]
+      | route m n b =>
+        rcases dyn_none_cases w id req (.route m n b) with h | h | h
+        · exact absurd h hr
+        · rw [h]; simp [attachedTs, Outcome.obsDyn, he]
+        · rw [h]
+          by_cases hat : (handleTargetBridge w req (.route m n b)).attach = .none
+          · have hd : ((handleTargetBridge w req (.route m n b)).obsDyn .none (.route m n b)).data = false := by
+              simp [Outcome.obsDyn, hat]
+            simp [Outcome.obsDyn, hat] at hd ⊢
+          · have hmm := late_attach_mapping hat
+            have he' : entitledB w id req (.remote m n) = true :=
+              entitled_of_passed hwf hc ha (by simpa [tunnelMappingID] using hmm)
+            have hns : (handleTargetBridge w req (.route m n b)).attach ≠ .source := by
+              unfold handleTargetBridge processCrossNodeForwardLate handleLocalBridgeWait
+              simp only [hmm, bne_self_eq_false, Bool.false_eq_true, if_false]
+              split
+              · split <;> simp
+              · simp
+            simp [attachedTs, Outcome.obsDyn, hns, he']
+
+/-- Attachment in a changing tunnel state: whatever the connection is attached to — the tunnel found at arrival,
+the bridge it creates, or the tunnel that appears while it polls — it is authenticated and entitled to that
+tunnel's mapping. -/
+theorem attach_entitled_dyn (w : World) (id : ConnIdent) (req : Req) (ts : TunnelState) (late : Late)
+    (hwf : identWF id = true) (h : (openTunnelDyn w id req ts late).attach ≠ .none) :
+    id.authenticated = true ∧
+    entitledB w id req (attachedTs ts late (openTunnelDyn w id req ts late).attach) = true := by
+  have hm := C04_main_dyn w id req ts late hwf
+  unfold holdsDyn at hm
+  simp only [Bool.and_eq_true, Bool.or_eq_true] at hm
+  have he : entitledB w id req (attachedTs ts late (openTunnelDyn w id req ts late).attach) = true := by
+    rcases hm.2 with hn | he
+    · simp [Outcome.obsDyn] at hn
+      exact absurd hn.1 h
+    · simpa [Outcome.obsDyn] using he
+  refine ⟨?_, he⟩
+  unfold entitledB at he
+  simp only [Bool.and_eq_true] at he
+  exact he.1.1.2
+
 /-- Attachment (source, target or forwarded to another node) only for an authenticated, entitled connection. -/
 theorem attach_entitled (w : World) (id : ConnIdent) (req : Req) (ts : TunnelState) (hwf : identWF id = true)
     (h : (openTunnel w id req ts).attach ≠ .none) :
@@ -146,11 +207,11 @@ theorem legit_target_served (w : World) (id : ConnIdent) (m : PortMapping) (tid 
     simp [hid, hne, hs, hf, hv, validateWithSecretKey]
   have hb : openTunnel w id ⟨true, m.ID, tid, m.SecretKey, ""⟩ (.bridge m.ID sv)
       = handleExistingBridge w ⟨true, m.ID, tid, m.SecretKey, ""⟩ := by
-    simp [openTunnel, findControlConnection, hc, ha]
+    simp [openTunnel, openTunnelDyn, findControlConnection, hc, ha]
   refine ⟨?_, ?_, ?_⟩
   · rw [hb]; rfl
   · rw [hb]; exact handleExistingBridge_attach w _
-  · simp [openTunnel, findControlConnection, hc, ha, processCrossNodeForward, hn]
+  · simp [openTunnel, openTunnelDyn, findControlConnection, hc, ha, processCrossNodeForward, hn]
 
 /-! ## T2: the order of effectful steps in the source is the one the model assumes -/
 
